@@ -687,7 +687,7 @@ async def search(ctx):
     specs = fixed + specs
     soft = 45 if ctx.tier == "quick" else 900
     ran = 0
-    for status, task, res in simpool.run("props.c05", "run_case", specs, deadline_s=soft + 120, soft_s=soft):
+    for status, task, res in simpool.run_retrying("props.c05", "run_case", specs, deadline_s=soft + 120, soft_s=soft):
         if status == "ok":
             ran += 1
             _merge(ctx, task, res)
